@@ -21,6 +21,9 @@ def make_tagger(two_haps):
         hap_cycle = ["HAP1", "HAP2"] if rng.random() < 0.7 else ["Hap1", "HAP2"]
         painted_seen = 0
         target_seen = False
+        primary_mode = two_haps and rng.random() < 0.35
+        primary_at = 0 if rng.random() < 0.7 else rng.randrange(3)
+        prim = None
         for gi, grp in enumerate(groups):
             painted = grp[0]["painted"]
             sc_tags = []
@@ -29,6 +32,8 @@ def make_tagger(two_haps):
             hap = None
             if two_haps and painted:
                 hap = hap_cycle[painted_seen % 2]
+                if primary_mode and painted_seen == primary_at:
+                    sc_tags.append("Primary")
                 painted_seen += 1
                 sc_tags.append(hap)
             if target_mode and gi >= target_from and rng.random() < 0.7:
@@ -47,6 +52,10 @@ def make_tagger(two_haps):
                 target_seen = True
             if hap is None:
                 hap = hap_of_name(grp[0]["name"])
+            if "Primary" in sc_tags and prim is None and hap:
+                prim = hap.lower()
+            if prim is not None and hap is not None and hap.lower() == prim:
+                hap = "Primary"
             for pc in grp:
                 t = pc["tags"]
                 if "FalseDuplicate" in t:
@@ -65,13 +74,14 @@ def make_tagger(two_haps):
                     r[5] = list(grp[k]["tags"])
                     k += 1
         ptx["target_seen"] = target_seen
+        ptx["prim"] = prim
     return tagger
 
 
 class C09(PipelineProp):
     pid = "C09"
     design_ref = "6/C09"
-    required_theorems = ['C09_label_tag_spec', 'C09_label_fails_only_unloc_unpainted', 'C09_target_set_by_tag', 'C09_target_monotone_make', 'C09_target_monotone_label', 'C09_routing', 'C09_asm_key_of_tagged', 'C09_asm_key_of_untagged', 'C09_legacy_refuted']
+    required_theorems = ['C09_label_tag_spec', 'C09_label_fails_only_unloc_unpainted', 'C09_target_set_by_tag', 'C09_target_monotone_make', 'C09_target_monotone_label', 'C09_routing', 'C09_asm_key_of_tagged', 'C09_asm_key_of_untagged', 'C09_legacy_refuted', 'C09_name_assemblies_spec', 'C09_named_preserves_scaffolds', 'C09_name_assemblies_error_iff', 'C09_single_names_nodup_iff', 'C09_primary_all_haplotigs_last']
     n_quick = 400
 
     def rule(self):
@@ -89,7 +99,7 @@ class C09(PipelineProp):
         two = rng.random() < 0.4
         inp = P.gen_input(rng, style=rng.choice(["tpf", "fasta"]), hap_names=two, nscaf=rng.randint(2, 6))
         ptx, pieces = P.gen_pretext(rng, inp, "edit", tagger=make_tagger(two))
-        return {"gen": "tagged/" + ("2hap" if two else "1hap"), "input": inp, "pretext": ptx,
+        return {"gen": "tagged/" + (("2hap+primary" if ptx.get("prim") else "2hap") if two else "1hap"), "input": inp, "pretext": ptx,
                 "prefix": "SUPER_", "pieces": pieces}
 
     def oracle(self, case, obs):
@@ -135,7 +145,12 @@ class C09(PipelineProp):
         for sc in case["input"]["scaffolds"]:
             if sc["name"] in baits:
                 continue
-            exp = "Contaminant" if case["pretext"].get("target_seen") else hap_of_name(sc["rows"][0][1])
+            exp = hap_of_name(sc["rows"][0][1])
+            prim = case["pretext"].get("prim")
+            if prim is not None and exp is not None and exp.lower() == prim:
+                exp = "Primary"
+            if case["pretext"].get("target_seen"):
+                exp = "Contaminant"
             for rs, re_, r in P.scaffold_spans(sc):
                 if r[0] == "F":
                     for k in where(r[1], r[2]):
